@@ -90,7 +90,7 @@ void comb_lesc_pairing_completed(struct comb* self, const struct u128* long_term
 __CPROVER_requires(FRESH(self, struct comb) && (W_state == sm_pairing_state_lesc_pairing_random_exchanged || W_state == sm_pairing_state_user_response_success)
     && __CPROVER_is_fresh(long_term_key, sizeof(struct u128)) && long_term_key->b[G_b] == W_new_b && (int)self->state_data_.lesc_state.algorithm == W_algo)
 __CPROVER_ensures(self->state_ == sm_pairing_state_pairing_completed && self->long_term_key_.b[G_b] == W_new_b)
-__CPROVER_ensures(self->pairing_status_ == (W_algo == lesc_pairing_algorithm_just_works ? device_pairing_status_unauthenticated_key : device_pairing_status_authenticated_key))
+__CPROVER_ensures(self->pairing_status_ == (W_algo == lesc_pairing_algorithm_numeric_comparison ? device_pairing_status_authenticated_key : device_pairing_status_unauthenticated_key))
 __CPROVER_assigns(self->state_, self->long_term_key_, self->pairing_status_)
 {{comb_lesc_completed}}
 struct pair_bool_u128 comb_find_key(const struct comb* self, uint16_t ediv, uint64_t rand)
